@@ -5,6 +5,7 @@ import (
 	"go/constant"
 	"go/token"
 	"go/types"
+	"morlockverif/checker/internal/core"
 	"sort"
 	"strings"
 
@@ -141,7 +142,7 @@ func c14Tables(c *Ctx, in *absint.Interp) {
 		}
 	}
 	// Square text = file then rank; ParseSquare(f, r)
-	if ss := c.P.Func("pkg/board", "Square", "String"); ss != nil {
+	if ss := c.find("pkg/board", "Square", "String"); ss != nil {
 		calls := ""
 		for _, blk := range ss.Blocks {
 			for _, ins := range blk.Instrs {
@@ -269,12 +270,12 @@ func c14Wiring(c *Ctx) {
 			}
 		}
 		ws := []want{
-			{"side to move", returnedValue(okRet, 1), 1, "parseColor"},
+			{"side to move", returnedValue(okRet, 1), 1, c.roleName("pkg/board/fen", "", "parseColor")},
 			{"half-move clock", returnedValue(okRet, 2), 4, "Atoi"},
 			{"full-move number", returnedValue(okRet, 3), 5, "Atoi"},
 		}
 		if np != nil && len(np.Call.Args) == 3 {
-			ws = append(ws, want{"castling rights", np.Call.Args[1], 2, "parseCastling"}, want{"e.p. square", np.Call.Args[2], 3, "ParseSquareStr"})
+			ws = append(ws, want{"castling rights", np.Call.Args[1], 2, c.roleName("pkg/board/fen", "", "parseCastling")}, want{"e.p. square", np.Call.Args[2], 3, "ParseSquareStr"})
 		}
 		var bad []string
 		for _, w := range ws {
@@ -342,7 +343,7 @@ func c14Wiring(c *Ctx) {
 			param int
 			via   []string
 		}
-		ws := map[int]want{1: {"side to move", 1, []string{"printColor"}}, 2: {"castling", 0, []string{"printCastling", "Castling"}},
+		ws := map[int]want{1: {"side to move", 1, []string{c.roleName("pkg/board/fen", "", "printColor")}}, 2: {"castling", 0, []string{c.roleName("pkg/board/fen", "", "printCastling"), "Castling"}},
 			3: {"e.p. square", 0, []string{"EnPassant"}}, 4: {"half-move clock", 2, nil}, 5: {"full-move number", 3, nil}}
 		for i := 1; i < 6; i++ {
 			w := ws[i]
@@ -379,7 +380,7 @@ func c14Wiring(c *Ctx) {
 	getters := map[string]string{"Position": "b.current.pos", "Turn": "b.turn", "NoProgress": "b.current.noprogress", "FullMoves": "b.moves", "Ply": "b.ply", "Hash": "b.current.hash"}
 	var gbad []string
 	for name, want := range getters {
-		fn := c.P.Func("pkg/board", "Board", name)
+		fn := c.find("pkg/board", "Board", name)
 		if fn == nil {
 			gbad = append(gbad, name+" missing")
 			continue
@@ -392,7 +393,7 @@ func c14Wiring(c *Ctx) {
 	sort.Strings(gbad)
 	r.Check(len(gbad) == 0, "R14-wiring", "board.Board getters return the fields they are named after", "", "", strings.Join(gbad, "; "))
 	if reset := c.fn("R14-wiring", "pkg/engine", "Engine", "Reset"); reset != nil {
-		nb := c.P.Func("pkg/board", "", "NewBoard")
+		nb := c.find("pkg/board", "", "NewBoard")
 		calls := callsTo(reset, nb)
 		got := ""
 		if len(calls) == 1 {
@@ -407,7 +408,7 @@ func c14Wiring(c *Ctx) {
 		st := map[string]string{}
 		for _, fs := range allFieldStores(c.P) {
 			if fs.Fn == nb && !fs.Whole {
-				st[fs.Named.Obj().Name()+"."+fs.Field] = pathExpr(fs.Instr.(*ssa.Store).Val)
+				st[core.ObjName(fs.Named.Obj())+"."+fs.Field] = pathExpr(fs.Instr.(*ssa.Store).Val)
 			}
 		}
 		pn := nb.Params
@@ -443,8 +444,16 @@ func c14Scan(c *Ctx, in0 *absint.Interp) {
 		case callee.String() == "strconv.Itoa":
 			k(st, absint.NewSym(types.Typ[types.String], "itoa", args[0]))
 			return true
-		case callee.Name() == "printPiece" || callee.Name() == "printColor" || callee.Name() == "printCastling":
-			k(st, absint.NewSym(callee.Signature.Results().At(0).Type(), callee.Name(), args...))
+		case callee == c.find("pkg/board/fen", "", "printPiece") || callee == c.find("pkg/board/fen", "", "printColor") || callee == c.find("pkg/board/fen", "", "printCastling"):
+			// canonical names, whatever the helpers are called in this tree
+			canon := "printPiece"
+			switch callee {
+			case c.find("pkg/board/fen", "", "printColor"):
+				canon = "printColor"
+			case c.find("pkg/board/fen", "", "printCastling"):
+				canon = "printCastling"
+			}
+			k(st, absint.NewSym(callee.Signature.Results().At(0).Type(), canon, args...))
 			return true
 		case callee.String() == "fmt.Sprintf" || callee.String() == "(*strings.Builder).String":
 			k(st, absint.NewSym(types.Typ[types.String], callee.Name()))
